@@ -221,7 +221,20 @@ def make_library(rng, loader, strategies, n, mates, focus=None, phreds=(), hdr_c
         hdrcls = rng.choice(hdr_classes or HEADER_CLASSES)
         if content == 'phred' and rng.random() < 0.8:
             hdrcls = 'ill11'
-        pairs.append(make_pair(rng, loader, lay, content, hdrcls, pid, mates, ph))
+        pr = make_pair(rng, loader, lay, content, hdrcls, pid, mates, ph)
+        u = rng.random()
+        if ph is None and pairs and u < 0.07:            # the same bases and qualities as the previous pair, another read name
+            for r, r0 in zip(pr['m'], pairs[-1]['m']):
+                r.update(seq=r0['seq'], qual=r0['qual'])
+            pr['content'] = 'dup_of_previous'
+        elif ph is None and u < 0.12:                    # soft-masked / lower-case bases
+            for r in pr['m']:
+                r['seq'] = r['seq'].lower()
+            pr['content'] += '+lower'
+        if rng.random() < 0.1:                           # '+<read name>' separator lines
+            for r in pr['m']:
+                r['plus'] = '+' + r['h'][1:]
+        pairs.append(pr)
     return pairs
 
 
@@ -234,6 +247,8 @@ def fastq_bytes(pairs, k, cfg):
     text = ''.join(eol.join((pr['m'][k]['h'], pr['m'][k]['seq'], pr['m'][k]['plus'], pr['m'][k]['qual'])) + eol for pr in pairs)
     if cfg.get('nofinalnl') and text:
         text = text[:-len(eol)]
+    elif cfg.get('trailing_blank'):
+        text += eol                                     # an empty line after the last record
     return text.encode()
 
 
@@ -521,10 +536,10 @@ def run_event(tid, grp, entry, names, pairs, acc, cfg, obs, extra=None):
          'percell': cfg['percell'], 'maxpairs': cfg['maxpairs'], 'gz': bool(cfg.get('gz', True)), 'fh': int(cfg.get('fh', 500)), 'prune': int(cfg.get('prune') or 0),
          'prior': cfg.get('prior') or '', 'prior_k': int(cfg.get('prior_k') or 0), 'lanes': int(cfg.get('lanes', 1)),
          'lane_split': int(cfg.get('lane_split', 0)), 'stale_dir': bool(cfg.get('stale_dir')),
-         'eol': cfg.get('eol') or 'lf', 'nofinalnl': bool(cfg.get('nofinalnl')), 'nofile': int(cfg.get('nofile') or 0),
+         'eol': cfg.get('eol') or 'lf', 'nofinalnl': bool(cfg.get('nofinalnl')), 'trailing_blank': bool(cfg.get('trailing_blank')), 'nofile': int(cfg.get('nofile') or 0),
          'strategies': names, 'lib': cfg['lib'], 'N': len(pairs),
          'classes': [[p['hdr'], p['content']] for p in pairs],
-         'inp': [{'id': p['id'], 'h': [r['h'] for r in p['m']], 'm': [{'seq': r['seq'], 'qual': r['qual']} for r in p['m']]}
+         'inp': [{'id': p['id'], 'h': [r['h'] for r in p['m']], 'p': [r['plus'] for r in p['m']], 'm': [{'seq': r['seq'], 'qual': r['qual']} for r in p['m']]}
                  for p in pairs],
          'acc': acc}
     e.update(obs)
@@ -563,11 +578,11 @@ class Recorder:
 
 def configs(rng, lib, mates, n, full):
     base = {'lib': lib, 'mates': mates, 'gz': rng.random() < 0.7, 'eol': rng.choice(['lf', 'lf', 'crlf']),
-            'nofinalnl': rng.random() < 0.4}
+            'nofinalnl': rng.random() < 0.4, 'trailing_blank': rng.random() < 0.2}
     out = [dict(base, hasRej=True, percell=False, maxpairs=0),
            dict(base, hasRej=False, percell=False, maxpairs=0)]
-    out.append(dict(base, hasRej=rng.random() < 0.7, percell=True, maxpairs=0, fh=rng.choice([1, 2, 500]),
-                    prune=rng.choice([0, 3, 7])))
+    out.append(dict(base, hasRej=rng.random() < 0.7, percell=True, maxpairs=0, fh=rng.choice([0, 1, 2, 500]),
+                    prune=rng.choice([0, 1, 3, 7])))
     out.append(dict(base, hasRej=True, percell=False, maxpairs=rng.randint(1, n + 1)))
     k1 = max(1, n)
     # histories: an earlier run into the same output prefix (test run with a cut-off / a different, longer library),
@@ -675,9 +690,12 @@ def main():
                                                   dict(base, hasRej=False, percell=True, maxpairs=0)], workdir)
 
         # (3) several strategies at once (demux.py -use A,B / -maxAutoDetectMethods > 1)
-        for _ in range(12 if quick else 150):
+        # ... including strategies whose names are prefixes of each other / that share whitelist and layout
+        related = [['CS2C8U6', 'CS2C8U6NH', 'CS2C8U6S'], ['NLAIII384C8U3', 'NLAIII384C8U3SE'], ['scCHIC384C8U3', 'scCHIC384C8U3l'],
+                   ['DamID2', 'DamID2_8bp_noCA', 'DamID2_3u4b3u6b'], ['ILLU', 'CS2C8U6'], ['NLAIII96C8U3SE', 'NLAIII96C8U3']]
+        for j in range(12 if quick else 150):
             k = rng.choice([2, 2, 3])
-            names = rng.sample(loader.names, k)
+            names = related[j] if j < len(related) else rng.sample(loader.names, k)
             mates = rng.choice([2, 2, 1])
             strategies = loader.select(names)
             n = rng.randint(3, 30)
@@ -691,7 +709,7 @@ def main():
             n = rng.choice([0, 1, 1, 2, 3])
             mates = rng.choice([1, 2])
             pairs = make_library(rng, loader, strategies, n, mates, focus=0)
-            base = {'lib': 'TINY', 'mates': mates, 'gz': rng.random() < 0.5, 'eol': rng.choice(['lf', 'crlf']),
+            base = {'lib': rng.choice(['TINY', '']), 'mates': mates, 'gz': rng.random() < 0.5, 'eol': rng.choice(['lf', 'crlf']),
                     'nofinalnl': rng.random() < 0.5}
             rec.group(loader, [name], pairs, [dict(base, hasRej=True, percell=False, maxpairs=0),
                                               dict(base, hasRej=True, percell=rng.random() < 0.5, maxpairs=max(1, n)),
@@ -728,6 +746,26 @@ def main():
             rec.group(loader, [name], pairs, [dict(base, hasRej=True, percell=False, maxpairs=0),
                                               dict(base, hasRej=False, percell=False, maxpairs=rng.choice([0, rng.randint(1, n)])),
                                               dict(base, hasRej=True, percell=True, maxpairs=0)], workdir)
+
+        # (10) header length exactly at the limit of asFastq (254): the library name is calibrated on the strategy's own output
+        #      so that the rebuilt header of the reference pair has 253, 254, 255 characters
+        from singlecellmultiomics.fastqProcessing.fastqIterator import FastqRecord
+        for name in (['CS2C8U6', 'scCHIC384C8U3', 'ILLU'] if quick else [n for n in loader.names if n != 'CHROMC16U12']):
+            strategies = loader.select([name])
+            pairs = make_library(rng, loader, strategies, 12, 2, focus=0, hdr_classes=['ill11'], content_classes=['exact'])
+            lens = set()
+            for pr in pairs:
+                reads = tuple(FastqRecord(r['h'], r['seq'], r['plus'], r['qual']) for r in pr['m'])
+                try:
+                    lens.add(len(str(strategies[0].demultiplex(reads, library='', probe=None)[0]).split('\n')[0]) - 1)
+                except Exception:
+                    pass
+            for target in (253, 254, 255):
+                for l0 in sorted(lens)[:2]:
+                    if 0 < target - l0 < 200:
+                        base = {'lib': 'L' * (target - l0), 'mates': 2, 'gz': True}
+                        rec.group(loader, [name], pairs, [dict(base, hasRej=True, percell=False, maxpairs=0),
+                                                          dict(base, hasRej=False, percell=True, maxpairs=0)], workdir)
 
         # (9) per-cell sinks under a real RLIMIT_NOFILE below the number of cell files (HandleLimiter closes everything and
         #     reopens in append mode; fault *injection* is C19, this is the plain operating-system limit)
@@ -780,12 +818,13 @@ def replay(rec, case_path, workdir):
     hd = ev.get('hd', 0)
     loader = loaders.setdefault(hd, Loader(hd=hd))
     pairs = [{'id': p['id'], 'hdr': c[0], 'content': c[1],
-              'm': [{'h': h, 'seq': m['seq'], 'plus': '+', 'qual': m['qual']} for h, m in zip(p['h'], p['m'])]}
+              'm': [{'h': h, 'seq': m['seq'], 'plus': pl, 'qual': m['qual']}
+                    for h, pl, m in zip(p['h'], p.get('p') or ['+'] * len(p['h']), p['m'])]}
              for p, c in zip(ev['inp'], ev['classes'])]
     cfgs = [{'lib': e['lib'], 'mates': e['mates'], 'gz': e.get('gz', True), 'fh': e.get('fh', 500), 'prune': e.get('prune', 0),
              'prior': e.get('prior') or None, 'prior_k': e.get('prior_k', 0), 'lanes': e.get('lanes', 1),
              'lane_split': e.get('lane_split', 0), 'stale_dir': e.get('stale_dir', False), 'eol': e.get('eol', 'lf'),
-             'nofinalnl': e.get('nofinalnl', False), 'nofile': e.get('nofile', 0), 'hasRej': e['hasRej'],
+             'nofinalnl': e.get('nofinalnl', False), 'trailing_blank': e.get('trailing_blank', False), 'nofile': e.get('nofile', 0), 'hasRej': e['hasRej'],
              'percell': e['percell'], 'maxpairs': e['maxpairs']} for e in evs]
     rec.group(loader, ev['strategies'], pairs, cfgs, workdir, entry=ev.get('entry', 'api'),
               extra={'scn': ev['scn']} if 'scn' in ev else None)
